@@ -123,3 +123,38 @@ impl<'a> List<&'a Transition> {
         unimplemented!()
     }
 }
+
+impl Clone for Event {
+    #[verifier::external_body]
+    fn clone(&self) -> (r: Self)
+        ensures
+            r == *self,
+    {
+        unimplemented!()
+    }
+}
+
+impl Clone for DoneData {
+    #[verifier::external_body]
+    fn clone(&self) -> (r: Self)
+        ensures
+            r == *self,
+    {
+        unimplemented!()
+    }
+}
+
+// instance at T = Invoke of List::sort (invokes of a state in document order); assumed, same shape as the u32 instance
+impl List<Invoke> {
+    #[verifier::external_body]
+    pub fn sort<F: Fn(&Invoke, &Invoke) -> std::cmp::Ordering>(&self, compare: &F) -> (r: List<Invoke>)
+        requires
+            forall|i: int, j: int| 0 <= i < self.data@.len() && 0 <= j < self.data@.len() ==> call_requires(*compare, (&#[trigger] self.data@[i], &#[trigger] self.data@[j])),
+        ensures
+            r.data@.to_multiset() == self.data@.to_multiset(),
+            r.data@.len() == self.data@.len(),
+            forall|le: spec_fn(Invoke, Invoke) -> bool| cmp_matches(*compare, le) ==> r.data@ == #[trigger] sorted_seq(self.data@, le),
+    {
+        unimplemented!()
+    }
+}
